@@ -1,5 +1,46 @@
 """Property -> machinery."""
 PROPS = {
+    "C17": {
+        "x": [],
+        "extra": ["harness.pC17.run"],
+        "engines": ["engine-r"],
+        "engine": "engine-r",
+        "level": "other",
+        "explanation": "Engine R: every rule of the live Pygments token table (ExplorerScriptLexer()._tokens, read from "
+                       "/repo at run time) is translated to a z3 regular expression; z3 decides (R1) that no rule of a "
+                       "reachable state accepts the empty word (progress => termination), (R2) that in every reachable "
+                       "state every non-empty text has a matching rule at its first position (no Error token for any "
+                       "text), and a structural pass (R3) establishes that every action is a plain token type and every "
+                       "transition a push/pop of an existing state, under which Pygments' loop yields consecutive "
+                       "m.group() slices. Unbounded in text length. The translator is validated against the real `re` "
+                       "on sample strings each run.",
+        "technique": "z3 regex-theory queries (language emptiness / inclusion) over the live lexer table",
+        "level_text": "Proof-like for all texts of any length, within Engine R's regex subset; stated for "
+                      "get_tokens_unprocessed (get_tokens' stripnl/ensurenl preprocessing is Pygments' own).",
+        "level_note": "Trusted: Pygments' RegexLexer loop, z3's sequence/regex theory, the sre->z3 translator "
+                      "(differentially validated). Unicode categories approximated by ASCII cores (sound direction).",
+        "assumptions": ["Pygments RegexLexer.get_tokens_unprocessed loop as documented",
+                        "get_tokens() option preprocessing (stripnl, ensurenl) is outside the claim"],
+    },
+    "C04": {
+        "x": ["harness.hC04"],
+        "extra": [],
+        "level": "other",
+        "explanation": "Engine X: CrossHair+z3 symbolic execution of the real printers (repr_string, "
+                       "SsbOpParamLanguageString/ConstString/FixedPoint/PositionMarker.__str__, the simple-op write "
+                       "handler) composed with the real readers (singleline/multiline_string_literal, from_str, "
+                       "exps_int, parse_position_marker_arg) over symbolic strings, digit strings, indents and quote "
+                       "preferences; the lexer is represented by character-loop token predicates that are "
+                       "differential-tested against the real ANTLR lexer; counterexamples replayed natively.",
+        "technique": "CrossHair+z3 symbolic execution of printer∘reader round trips on symbolic strings/numerals "
+                     "(bounded length, case-split), native replay",
+        "level_text": "Within the stated string lengths / digit counts every value is covered by the solver (all paths "
+                      "confirmed); known-defect input classes are excluded by committed predicates and re-checked "
+                      "separately. Longer strings are outside the claim.",
+        "level_note": "Trusted: CrossHair's str/int models, z3; token predicates stand in for the ANTLR lexer "
+                      "(validated against it). Known findings listed in known_findings.json.",
+        "assumptions": ["ANTLR lexer represented by spec/tokens.py predicates", "strings longer than the bound not covered"],
+    },
     "C14": {
         "x": ["harness.hC14"],
         "extra": [],
